@@ -43,6 +43,7 @@ def runModel (lines : List String) : List String := Id.run do
       match t.toNat?.bind (fun j => tt[j]?) with
       | some tm => out := showVal (eval m.interp tm) :: out
       | none => out := "ERR term" :: out
+    | ["RESET"] => m := { abs := [], defs := [] }
     | ["W"] => out := (if m.constsWellSorted then "wf" else "ill-sorted") :: out
     | _ => pure ()
   return out.reverse
